@@ -335,13 +335,33 @@ func Generate(g *pk.Gen, prop string) {
 		for pm := 0; pm < 3; pm++ {
 			job(mk(ve, randCfg(g, msgEncrypt4, 40), &e0, "valid-enc"), pm)
 		}
-		eds, tags = singleEdits(g, ve)
-		for i, r := range eds {
-			job(mk(r, randCfg(g, msgEncrypt4, 40), &e0, "enc;"+tags[i]), g.Rng.Intn(3))
+		// quick: one random packetisation per edit; thorough: every edit under all three packetisations and every key size
+		encs := []enc{e0}
+		pms := []int{-1}
+		if g.Thorough {
+			pms = []int{0, 1, 2}
+			for _, b := range bits[1:] {
+				encs = append(encs, enc{b, PemOf(Key(b), "RSA PUBLIC KEY"), g.Rng.Bytes(32)})
+			}
 		}
-		eds, tags = fieldEdits(g, e0)
-		for i, r := range eds {
-			job(mk(r, randCfg(g, msgEncrypt4, 40), &e0, "enc;"+tags[i]), g.Rng.Intn(3))
+		for ei := range encs {
+			e := encs[ei]
+			for _, pm := range pms {
+				pick := func() int {
+					if pm < 0 {
+						return g.Rng.Intn(3)
+					}
+					return pm
+				}
+				eds, tags = singleEdits(g, validEnc(e))
+				for i, r := range eds {
+					job(mk(r, randCfg(g, msgEncrypt4, 40), &e, "enc;"+tags[i]), pick())
+				}
+				eds, tags = fieldEdits(g, e)
+				for i, r := range eds {
+					job(mk(r, randCfg(g, msgEncrypt4, 40), &e, "enc;"+tags[i]), pick())
+				}
+			}
 		}
 		pv, ptags := pemVariants(g, append(bits, 512))
 		for i, e := range pv {
@@ -350,7 +370,7 @@ func Generate(g *pk.Gen, prop string) {
 		}
 		nmulti := 60
 		if g.Thorough {
-			nmulti = 3000
+			nmulti = 12000
 		}
 		for i := 0; i < nmulti; i++ {
 			if g.Rng.Intn(4) == 0 {
